@@ -77,11 +77,10 @@ Example c18_no_leftovers_example :
 Proof. exact no_leftovers_example. Qed.
 
 (* ---- a crashed store becomes usable again (partial: the contender is scheduled alone; the other contenders, any
-   number, are idle).  recoverable ps l m = the lock is absent, the record of a dead pid, or half-written by a dead pid
-   with no meta.json; meta.json absent or of a dead pid.  Step i 2 = endpoint unreachable, 1 s timer elapsed, deadline
-   not passed *)
+   number, are idle).  dead_leftover ps l m = every pid in lock.json (record or half-written) and meta.json is dead —
+   ALL such leftovers, since fix S23.  Step i 2 = endpoint unreachable, 1 s timer elapsed, deadline not passed *)
 Theorem c18_recovers_partial : forall (l : lockf) (m : metaf) (ps : list proc) (i : nat) (me : pid),
-  (forall q, In q ps -> contender q) -> nth_error ps i = Some (fresh me DServer) -> recoverable ps l m ->
+  (forall q, In q ps -> contender q) -> nth_error ps i = Some (fresh me DServer) -> dead_leftover ps l m ->
   exists n, (n <= 15)%nat
     /\ holders (run true (init l m ps) (repeat (Step i 2) n)) = [me]
     /\ s_lock (run true (init l m ps) (repeat (Step i 2) n)) = LRec me
@@ -93,27 +92,22 @@ Print Assumptions c18_recovers_partial.
 
 Example c18_recovers_example :
   (forall q, In q two_servers -> contender q) /\ nth_error two_servers 1 = Some (fresh 2 DServer)
-  /\ recoverable two_servers (LRec 900) (MRec 901) /\ recoverable two_servers (LHalf 900) MAbsent.
+  /\ dead_leftover two_servers (LRec 900) (MRec 901) /\ dead_leftover two_servers (LHalf 900) (MRec 901).
 Proof. exact recovers_example. Qed.
 
-(* ---- the one dead leftover that is NOT recoverable (finding S18a): a half-written lock next to any meta.json is never
-   cleaned — corrupt cleanup refuses because meta.json exists, stale cleanup because the lock has no record.  For ALL
-   contenders, ALL schedules (crashes or not, timer assumption or not) nobody ever becomes the authority again *)
-Theorem c18_wedged_half_lock_with_meta : forall (ag : bool) (d d' : pid) (ps : list proc) (es : list event),
+(* ---- finding S23 (fixed in /repo): BEFORE the fix (run_unfixed: corrupt cleanup refuses whenever meta.json exists) a
+   half-written lock next to any meta.json was never cleaned — corrupt cleanup refused because meta.json exists, stale
+   cleanup because the lock has no record.  For ALL contenders, ALL schedules (crashes or not, timer assumption or not)
+   nobody ever became the authority again *)
+Theorem c18_unfixed_wedged_half_lock_with_meta : forall (ag : bool) (d d' : pid) (ps : list proc) (es : list event),
   (forall q, In q ps -> contender q) ->
-  holders (run ag (init (LHalf d) (MRec d') ps) es) = []
-  /\ s_lock (run ag (init (LHalf d) (MRec d') ps) es) = LHalf d
-  /\ s_meta (run ag (init (LHalf d) (MRec d') ps) es) = MRec d'.
-Proof. exact wedged_half_lock_with_meta. Qed.
-Print Assumptions c18_wedged_half_lock_with_meta.
+  holders (run_unfixed ag (init (LHalf d) (MRec d') ps) es) = []
+  /\ s_lock (run_unfixed ag (init (LHalf d) (MRec d') ps) es) = LHalf d
+  /\ s_meta (run_unfixed ag (init (LHalf d) (MRec d') ps) es) = MRec d'.
+Proof. exact unfixed_wedged_half_lock_with_meta. Qed.
+Print Assumptions c18_unfixed_wedged_half_lock_with_meta.
 
-(* so "every dead leftover is recovered under some schedule" is false *)
-Definition c18_recovers_full : Prop := recovers_full.
-Theorem c18_recovers_full_false : ~ c18_recovers_full.
-Proof. exact recovers_full_false. Qed.
-Print Assumptions c18_recovers_full_false.
-
-(* (finding S18b) a meta.json without a lock keeps every CLIENT loop away from its spawn branch, forever *)
+(* ---- finding S24 (open): a meta.json without a lock keeps every CLIENT loop away from its spawn branch, forever *)
 Theorem c18_client_wedged_meta_only : forall (ag : bool) (d' : pid) (ps : list proc) (es : list event),
   (forall q, In q ps -> q = fresh (p_pid q) DClient) ->
   (forall q, In q (s_procs (run ag (init LAbsent (MRec d') ps) es)) -> p_pc q <> LockExists)
